@@ -55,7 +55,7 @@ Proof.
   rewrite Hf. reflexivity.
 Qed.
 
-Lemma own_decode_S md S p f t s : own_decode md S p (Datatypes.S f) t s =
+Lemma own_decode_S md A S p f t s : own_decode md A S p (Datatypes.S f) t s =
   match resolve S t with
   | TyBool => lift (let* (b, s) := m_bool md p s in Ok (GBool b, s))
   | TyI8 => lift (let* (z, s) := m_i8 md s in Ok (GI8 z, s))
@@ -70,28 +70,28 @@ Lemma own_decode_S md S p f t s : own_decode md S p (Datatypes.S f) t s =
             let* (_, s) := m_struct_end md p s in Ok (GVoid, s))
   | TyList et =>
       let+ (h, s) := lift (m_coll_begin md p s) in
-      let+ (l, s) := own_elems (own_decode md S p f) (is_sync md && owns_heap S et) (Datatypes.S f) et (snd h) s [] in
+      let+ (l, s) := own_elems (own_decode md A S p f) (is_sync md && owns_heap A S et) (Datatypes.S f) et (snd h) s [] in
       lift (Ok (GList l, s))
   | TySet et =>
       let+ (h, s) := lift (m_coll_begin md p s) in
-      let+ (l, s) := own_elems (own_decode md S p f) false (Datatypes.S f) et (snd h) s [] in
+      let+ (l, s) := own_elems (own_decode md A S p f) false (Datatypes.S f) et (snd h) s [] in
       lift (Ok (GSet l, s))
   | TyMap kt vt =>
       let+ (h, s) := lift (m_map_begin md p s) in
-      let+ (l, s) := own_pairs (own_decode md S p f) (Datatypes.S f) kt vt (snd h) s [] in
+      let+ (l, s) := own_pairs (own_decode md A S p f) (Datatypes.S f) kt vt (snd h) s [] in
       lift (Ok (GMap l, s))
   | TyRef n =>
       match lookup S n with
       | Some (DEnum _) => lift (let* (z, s) := m_i32 md p s in Ok (GEnum z, s))
       | Some (DStruct fs _ _) =>
           let+ (_, s) := lift (m_struct_begin md p s) in
-          let+ (vars, s) := own_fields md S p f (own_decode md S p f) (Datatypes.S f) fs (map init_var fs) s in
+          let+ (vars, s) := own_fields md S p f (own_decode md A S p f) (Datatypes.S f) fs (map init_var fs) s in
           let+ (_, s) := lift (m_struct_end md p s) in
           let+ out := lift (finish_fields fs vars) in
           lift (Ok (GStruct out [], s))
       | Some (DUnion vs void_ok _) =>
           let+ (_, s) := lift (m_struct_begin md p s) in
-          let+ (ret, s) := own_variants md S p f (own_decode md S p f) (Datatypes.S f) vs None s in
+          let+ (ret, s) := own_variants md S p f (own_decode md A S p f) (Datatypes.S f) vs None s in
           let+ (_, s) := lift (m_struct_end md p s) in
           lift (match ret with
                 | Some (id, x) => Ok (GUnion id x, s)
@@ -256,7 +256,7 @@ Section ProjLoops.
 End ProjLoops.
 
 (* erasing the ghost from the sync instance gives Gen.gen_decode *)
-Theorem own_proj_sync S p : forall f t s, fst (own_decode MSync S p f t s) = gen_decode S p f t s.
+Theorem own_proj_sync A S p : forall f t s, fst (own_decode MSync A S p f t s) = gen_decode S p f t s.
 Proof.
   induction f as [|f IH]; intros t s; [reflexivity|].
   rewrite own_decode_S, gen_decode_S.
@@ -278,7 +278,7 @@ Proof.
 Qed.
 
 (* erasing the ghost from the async instance gives GenAsync.gen_decode_async *)
-Theorem own_proj_async S p : forall f t s, fst (own_decode MAsync S p f t s) = gen_decode_async S p f t s.
+Theorem own_proj_async A S p : forall f t s, fst (own_decode MAsync A S p f t s) = gen_decode_async S p f t s.
 Proof.
   induction f as [|f IH]; intros t s; [reflexivity|].
   rewrite own_decode_S, gen_decode_async_S.
@@ -299,14 +299,15 @@ Proof.
       apply fst_obind_ext; [reflexivity|]. intros [u2 s3]. reflexivity.
 Qed.
 
-Theorem own_proj_top_sync S p t l : fst (own_decode_top MSync S p t l) = gen_decode_top S p t l.
+Theorem own_proj_top_sync A S p t l : fst (own_decode_top MSync A S p t l) = gen_decode_top S p t l.
 Proof. unfold own_decode_top, gen_decode_top. cbn [fst]. rewrite own_proj_sync. reflexivity. Qed.
-Theorem own_proj_top_async S p t l : fst (own_decode_top MAsync S p t l) = gen_decode_async_top S p t l.
+Theorem own_proj_top_async A S p t l : fst (own_decode_top MAsync A S p t l) = gen_decode_async_top S p t l.
 Proof. unfold own_decode_top, gen_decode_async_top. cbn [fst]. rewrite own_proj_async. reflexivity. Qed.
 
 (* ---------- a generic induction: a predicate closed under lift / obind holds of every template ---------- *)
 Section Closed.
   Variable md : dmode.
+  Variable A : list nat.
   Variable S : schema.
   Variable p : pk.
   Variable Q : forall A, own A -> Prop.
@@ -378,10 +379,10 @@ Lemma reach_resolve S t0 t : reach S t0 t -> reach S t0 (resolve S t).
 Proof. apply reach_resolve_n. Qed.
 
 (* ---------- nothing leaks unless a raw list arm is reachable ---------- *)
-(* one statement for both template instances: [is_sync md && owns_heap S et] is the flag of the list arm *)
-Theorem own_noleak md S p t0 :
-  (forall et, reach S t0 (TyList et) -> is_sync md && owns_heap S et = false) ->
-  forall f t s, reach S t0 t -> snd (own_decode md S p f t s) = [].
+(* one statement for both template instances: [is_sync md && owns_heap A S et] is the flag of the list arm *)
+Theorem own_noleak md A S p t0 :
+  (forall et, reach S t0 (TyList et) -> is_sync md && owns_heap A S et = false) ->
+  forall f t s, reach S t0 t -> snd (own_decode md A S p f t s) = [].
 Proof.
   intros Hno.
   induction f as [|f IH]; intros t s Hr; [reflexivity|].
@@ -399,7 +400,7 @@ Proof.
     generalize (Datatypes.S f) (snd h) s1 (@nil gval).
     induction n as [|m IHm]; intros k s' acc; cbn [own_elems]; destruct (k <=? 0); try reflexivity.
     unfold NOLEAK, obind_leak. specialize (IH et s' He).
-    destruct (fst (own_decode md S p f et s')) as [[x s2]| |]; cbn [snd fst]; rewrite IH; [|reflexivity..].
+    destruct (fst (own_decode md A S p f et s')) as [[x s2]| |]; cbn [snd fst]; rewrite IH; [|reflexivity..].
     apply IHm.
   - (* set *)
     apply noleak_bind; [reflexivity|]. intros [h s1].
@@ -408,54 +409,54 @@ Proof.
     generalize (Datatypes.S f) (snd h) s1 (@nil gval).
     induction n as [|m IHm]; intros k s' acc; cbn [own_elems]; destruct (k <=? 0); try reflexivity.
     unfold NOLEAK, obind_leak. specialize (IH et s' He).
-    destruct (fst (own_decode md S p f et s')) as [[x s2]| |]; cbn [snd fst]; rewrite IH; [|reflexivity..].
+    destruct (fst (own_decode md A S p f et s')) as [[x s2]| |]; cbn [snd fst]; rewrite IH; [|reflexivity..].
     apply IHm.
   - (* map *)
     apply noleak_bind; [reflexivity|]. intros [h s1].
     apply noleak_bind; [|intros [l s2]; reflexivity].
-    apply (closed_pairs Q Ql Qb (own_decode md S p f) (reach S t0)).
+    apply (closed_pairs Q Ql Qb (own_decode md A S p f) (reach S t0)).
     + intros t' s' Ht'. apply IH, Ht'.
     + eapply reach_mapk; eauto.
     + eapply reach_mapv; eauto.
   - destruct (lookup S n) as [[fs kp ia|vs vo kp|ms|tt]|] eqn:Elk; try reflexivity.
     + apply noleak_bind; [reflexivity|]. intros [u s1].
       apply noleak_bind.
-      * apply (closed_fields md S p Q Ql Qb f (own_decode md S p f) (reach S t0)).
+      * apply (closed_fields md S p Q Ql Qb f (own_decode md A S p f) (reach S t0)).
         -- intros t' s' Ht'. apply IH, Ht'.
         -- intros fd Hin. eapply reach_field; eauto.
       * intros [vars s2]. apply noleak_bind; [reflexivity|]. intros [u2 s3].
         apply noleak_bind; [reflexivity|]. intros out. reflexivity.
     + apply noleak_bind; [reflexivity|]. intros [u s1].
       apply noleak_bind.
-      * apply (closed_variants md S p Q Ql Qb f (own_decode md S p f) (reach S t0)).
+      * apply (closed_variants md S p Q Ql Qb f (own_decode md A S p f) (reach S t0)).
         -- intros t' s' Ht'. apply IH, Ht'.
         -- intros q Hin. eapply reach_variant; eauto.
       * intros [ret s2]. apply noleak_bind; [reflexivity|]. intros [u2 s3]. reflexivity.
 Qed.
 
 (* C19 for the types outside the class of F-19a: the sync decoder leaks nothing, on every input *)
-Theorem no_leak_partial S t : no_heap_list S t ->
-  forall p f s, snd (own_decode MSync S p f t s) = [].
+Theorem no_leak_partial A S t : no_heap_list A S t ->
+  forall p f s, snd (own_decode MSync A S p f t s) = [].
 Proof.
-  intros Hn p f s. apply (own_noleak MSync S p t); [|apply reach_refl].
+  intros Hn p f s. apply (own_noleak MSync A S p t); [|apply reach_refl].
   intros et Hr. cbn [is_sync andb]. apply Hn, Hr.
 Qed.
 
 (* the async decoder (push) never leaks, whatever the schema *)
-Theorem no_leak_async S t p f s : snd (own_decode MAsync S p f t s) = [].
-Proof. apply (own_noleak MAsync S p t); [reflexivity|apply reach_refl]. Qed.
+Theorem no_leak_async A S t p f s : snd (own_decode MAsync A S p f t s) = [].
+Proof. apply (own_noleak MAsync A S p t); [reflexivity|apply reach_refl]. Qed.
 
-Corollary no_leak_partial_top S t : no_heap_list S t ->
-  forall p l, snd (own_decode_top MSync S p t l) = [].
+Corollary no_leak_partial_top A S t : no_heap_list A S t ->
+  forall p l, snd (own_decode_top MSync A S p t l) = [].
 Proof. intros H p l. unfold own_decode_top. cbn [snd]. apply no_leak_partial, H. Qed.
-Corollary no_leak_async_top S t p l : snd (own_decode_top MAsync S p t l) = [].
+Corollary no_leak_async_top A S t p l : snd (own_decode_top MAsync A S p t l) = [].
 Proof. unfold own_decode_top. cbn [snd]. apply no_leak_async. Qed.
 
 (* the decidable sufficient condition *)
-Lemma nhl_reach S t0 : no_heap_list_b S t0 = true -> forall t, reach S t0 t -> nhl_ty S t = true.
+Lemma nhl_reach A S t0 : no_heap_list_b A S t0 = true -> forall t, reach S t0 t -> nhl_ty A S t = true.
 Proof.
   unfold no_heap_list_b. intros H. apply andb_prop in H as [H0 HS]. rewrite forallb_forall in HS.
-  assert (Hd : forall n d, lookup S n = Some d -> nhl_decl S d = true).
+  assert (Hd : forall n d, lookup S n = Some d -> nhl_decl A S d = true).
   { intros n d E. apply HS. eapply nth_error_In. exact E. }
   induction 1 as [|a _ IH|a _ IH|a b _ IH|a b _ IH|n t' _ _ E|n fs kp ia f _ _ E Hin|n vs vo kp q _ _ E Hin]; auto.
   - cbn [nhl_ty] in IH. apply andb_prop in IH. tauto.
@@ -466,14 +467,14 @@ Proof.
   - apply Hd in E. cbn [nhl_decl] in E. rewrite forallb_forall in E. apply E, Hin.
 Qed.
 
-Lemma no_heap_list_b_sound S t : no_heap_list_b S t = true -> no_heap_list S t.
+Lemma no_heap_list_b_sound A S t : no_heap_list_b A S t = true -> no_heap_list A S t.
 Proof.
-  intros H et Hr. apply (nhl_reach S t H) in Hr. cbn [nhl_ty] in Hr. apply andb_prop in Hr as [Hr _].
+  intros H et Hr. apply (nhl_reach A S t H) in Hr. cbn [nhl_ty] in Hr. apply andb_prop in Hr as [Hr _].
   apply negb_true_iff in Hr. exact Hr.
 Qed.
 
 (* ---------- a successful decode leaks nothing (any schema, both instances) ---------- *)
-Theorem own_ok_nil md S p : forall f t s, OKNIL (own_decode md S p f t s).
+Theorem own_ok_nil md A S p : forall f t s, OKNIL (own_decode md A S p f t s).
 Proof.
   set (Q := fun (A : Type) (r : own A) => OKNIL r).
   assert (Ql : forall A (r : res A), Q A (lift r)) by (intros; apply oknil_lift).
@@ -490,19 +491,19 @@ Proof.
   - apply Qb; [apply Ql|]. intros [h s1]. apply Qb; [apply Hel, IH|]. intros [l s2]. apply Ql.
   - apply Qb; [apply Ql|]. intros [h s1].
     apply Qb; [|intros [l s2]; apply Ql].
-    apply (closed_pairs Q Ql Qb (own_decode md S p f) (fun _ => True)); [intros; apply IH|exact I|exact I].
+    apply (closed_pairs Q Ql Qb (own_decode md A S p f) (fun _ => True)); [intros; apply IH|exact I|exact I].
   - destruct (lookup S n) as [[fs kp ia|vs vo kp|ms|tt]|]; try apply oknil_lift.
     + apply Qb; [apply Ql|]. intros [u s1].
       apply Qb.
-      * apply (closed_fields md S p Q Ql Qb f (own_decode md S p f) (fun _ => True)); [intros; apply IH|intros; exact I].
+      * apply (closed_fields md S p Q Ql Qb f (own_decode md A S p f) (fun _ => True)); [intros; apply IH|intros; exact I].
       * intros [vars s2]. apply Qb; [apply Ql|]. intros [u2 s3]. apply Qb; [apply Ql|]. intros out. apply Ql.
     + apply Qb; [apply Ql|]. intros [u s1].
       apply Qb.
-      * apply (closed_variants md S p Q Ql Qb f (own_decode md S p f) (fun _ => True)); [intros; apply IH|intros; exact I].
+      * apply (closed_variants md S p Q Ql Qb f (own_decode md A S p f) (fun _ => True)); [intros; apply IH|intros; exact I].
       * intros [ret s2]. apply Qb; [apply Ql|]. intros [u2 s3]. apply Ql.
 Qed.
 
-Corollary own_ok_no_leak md S p f t s x : fst (own_decode md S p f t s) = Ok x -> snd (own_decode md S p f t s) = [].
+Corollary own_ok_no_leak md A S p f t s x : fst (own_decode md A S p f t s) = Ok x -> snd (own_decode md A S p f t s) = [].
 Proof. apply own_ok_nil. Qed.
 
 (* ---------- exactly what the raw list arm leaks ---------- *)
@@ -541,15 +542,15 @@ End Exact.
    built), or elements 0..k-1 = xs were decoded (by Gen.gen_decode, one after the other) and written through the
    raw pointer, element k failed, and what stays alive is what element k leaked itself followed by exactly xs --
    when the element type needs Drop; nothing of this frame otherwise *)
-Theorem list_leak_exact S p f t et s :
+Theorem list_leak_exact A S p f t et s :
   resolve S t = TyList et -> (blen s < Datatypes.S f)%nat ->
-  failed (fst (own_decode MSync S p (Datatypes.S f) t s)) ->
-  (failed (r_coll_begin p s) /\ snd (own_decode MSync S p (Datatypes.S f) t s) = []) \/
+  failed (fst (own_decode MSync A S p (Datatypes.S f) t s)) ->
+  (failed (r_coll_begin p s) /\ snd (own_decode MSync A S p (Datatypes.S f) t s) = []) \/
   exists h s0 xs sk,
     r_coll_begin p s = Ok (h, s0) /\ decodes_seq (gen_decode S p f) et s0 xs sk /\
     Z.of_nat (length xs) < snd h /\ failed (gen_decode S p f et sk) /\
-    snd (own_decode MSync S p (Datatypes.S f) t s) =
-      snd (own_decode MSync S p f et sk) ++ (if owns_heap S et then xs else []).
+    snd (own_decode MSync A S p (Datatypes.S f) t s) =
+      snd (own_decode MSync A S p f et sk) ++ (if owns_heap A S et then xs else []).
 Proof.
   intros Eres Hf. rewrite own_decode_S, Eres.
   pose proof (r_coll_begin_good p s) as G.
@@ -557,31 +558,31 @@ Proof.
   destruct (r_coll_begin p s) as [[h s0]| |] eqn:Ec; cbn [good_hdr] in G; cbn [fst snd app];
     [|intros _; left; split; [exact I|reflexivity]..].
   destruct G as [G1 G2].
-  set (E := own_elems (own_decode MSync S p f) (is_sync MSync && owns_heap S et) (Datatypes.S f) et (snd h) s0 []).
+  set (E := own_elems (own_decode MSync A S p f) (is_sync MSync && owns_heap A S et) (Datatypes.S f) et (snd h) s0 []).
   intros Hfail. right. exists h, s0.
   assert (HfE : failed (fst E)).
   { destruct (fst E) as [[l s2]| |]; cbn [fst lift failed] in Hfail |- *; auto. }
-  destruct (own_elems_fail (gen_decode S p f) (own_decode MSync S p f) (own_proj_sync S p f) (own_ok_nil MSync S p f)
-              (is_sync MSync && owns_heap S et) et (Datatypes.S f) (snd h) s0 [] ltac:(lia) HfE)
+  destruct (own_elems_fail (gen_decode S p f) (own_decode MSync A S p f) (own_proj_sync A S p f) (own_ok_nil MSync A S p f)
+              (is_sync MSync && owns_heap A S et) et (Datatypes.S f) (snd h) s0 [] ltac:(lia) HfE)
     as (xs & sk & Hd & Hl & Hfk & Ho & Hs).
   fold E in Ho, Hs. exists xs, sk. repeat split; auto.
   destruct (fst E) as [[l s2]| |]; [destruct HfE|..]; cbn [snd]; rewrite Hs, app_nil_r; cbn [is_sync andb rev app]; reflexivity.
 Qed.
 
 (* innermost failing list (no Drop-needing list below the element type): the leak is exactly the decoded prefix *)
-Corollary list_leak_exact_flat S p f t et s :
-  resolve S t = TyList et -> (blen s < Datatypes.S f)%nat -> owns_heap S et = true -> no_heap_list S et ->
-  failed (fst (own_decode MSync S p (Datatypes.S f) t s)) ->
-  (failed (r_coll_begin p s) /\ snd (own_decode MSync S p (Datatypes.S f) t s) = []) \/
+Corollary list_leak_exact_flat A S p f t et s :
+  resolve S t = TyList et -> (blen s < Datatypes.S f)%nat -> owns_heap A S et = true -> no_heap_list A S et ->
+  failed (fst (own_decode MSync A S p (Datatypes.S f) t s)) ->
+  (failed (r_coll_begin p s) /\ snd (own_decode MSync A S p (Datatypes.S f) t s) = []) \/
   exists h s0 xs sk,
     r_coll_begin p s = Ok (h, s0) /\ decodes_seq (gen_decode S p f) et s0 xs sk /\
     Z.of_nat (length xs) < snd h /\ failed (gen_decode S p f et sk) /\
-    snd (own_decode MSync S p (Datatypes.S f) t s) = xs.
+    snd (own_decode MSync A S p (Datatypes.S f) t s) = xs.
 Proof.
   intros Eres Hf Hh Hn Hfail.
-  destruct (list_leak_exact S p f t et s Eres Hf Hfail) as [H|(h & s0 & xs & sk & H1 & H2 & H3 & H4 & H5)]; [left; exact H|].
+  destruct (list_leak_exact A S p f t et s Eres Hf Hfail) as [H|(h & s0 & xs & sk & H1 & H2 & H3 & H4 & H5)]; [left; exact H|].
   right. exists h, s0, xs, sk. repeat split; auto.
-  rewrite H5, Hh, (no_leak_partial S et Hn). reflexivity.
+  rewrite H5, Hh, (no_leak_partial A S et Hn). reflexivity.
 Qed.
 
 (* ---------- the arm does leak: finding F-19a ---------- *)
@@ -593,12 +594,12 @@ Definition leak_input : list byte :=
   [x0f; x00; x01; x0b; x00; x00; x00; x02; x00; x00; x00; x01; x61; x00; x00; x00; x05; x62]%byte.
 
 Lemma leak_witness :
-  own_decode_top MSync leak_schema PBinary (TyRef 0) leak_input = (Err EInvalidData, [GBytes [x61]%byte]).
+  own_decode_top MSync [] leak_schema PBinary (TyRef 0) leak_input = (Err EInvalidData, [GBytes [x61]%byte]).
 Proof. vm_compute. reflexivity. Qed.
 
 Theorem list_leak_refuted :
-  exists S t p l e, wf_schema S = true /\ fst (own_decode_top MSync S p t l) = Err e /\ e <> EOutOfFuel /\
-                    snd (own_decode_top MSync S p t l) <> [].
+  exists S t p l e, wf_schema S = true /\ fst (own_decode_top MSync [] S p t l) = Err e /\ e <> EOutOfFuel /\
+                    snd (own_decode_top MSync [] S p t l) <> [].
 Proof.
   exists leak_schema, (TyRef 0), PBinary, leak_input, EInvalidData.
   rewrite leak_witness. cbn [fst snd]. split; [vm_compute; reflexivity|]. split; [reflexivity|]. split; discriminate.
@@ -606,12 +607,12 @@ Qed.
 
 (* the same bytes through the async instance: same error class family, nothing leaked *)
 Example leak_witness_async :
-  own_decode_top MAsync leak_schema PBinary (TyRef 0) leak_input = (Err ETransport, []).
+  own_decode_top MAsync [] leak_schema PBinary (TyRef 0) leak_input = (Err ETransport, []).
 Proof. vm_compute. reflexivity. Qed.
 
 (* compact protocol: field header 19 (delta 1, list), list header 28 (2 x binary), 01 61, 05 62 *)
 Example leak_witness_compact :
-  own_decode_top MSync leak_schema PCompact (TyRef 0) [x19; x28; x01; x61; x05; x62]%byte
+  own_decode_top MSync [] leak_schema PCompact (TyRef 0) [x19; x28; x01; x61; x05; x62]%byte
   = (Err EInvalidData, [GBytes [x61]%byte]).
 Proof. vm_compute. reflexivity. Qed.
 
@@ -623,33 +624,50 @@ Definition safe_schema : schema :=
             mkField 3 Optional (TyMap TyString TyString) None; mkField 4 Optional (TyRef 1) None] false false;
    DStruct [mkField 1 Required (TyList TyDouble) None] false false].
 
-Example safe_schema_ok : wf_schema safe_schema = true /\ no_heap_list safe_schema (TyRef 0).
+Example safe_schema_ok : wf_schema safe_schema = true /\ no_heap_list [] safe_schema (TyRef 0).
 Proof. split; [vm_compute; reflexivity|]. apply no_heap_list_b_sound. vm_compute. reflexivity. Qed.
 
 (* set<string> {"a", <truncated>}: fails, and nothing is leaked *)
 Example safe_fails_clean :
-  own_decode_top MSync safe_schema PBinary (TyRef 0)
+  own_decode_top MSync [] safe_schema PBinary (TyRef 0)
     [x0e; x00; x02; x0b; x00; x00; x00; x02; x00; x00; x00; x01; x61; x00; x00; x00; x05; x62]%byte
   = (Err EInvalidData, []).
 Proof. vm_compute. reflexivity. Qed.
 
 (* the hypotheses of list_leak_exact_flat are satisfiable: list<string> *)
-Example exact_hyps : resolve [] (TyList TyString) = TyList TyString /\ owns_heap [] TyString = true /\ no_heap_list [] TyString.
+Example exact_hyps : resolve [] (TyList TyString) = TyList TyString /\ owns_heap [] [] TyString = true /\ no_heap_list [] [] TyString.
 Proof.
   split; [reflexivity|]. split; [reflexivity|]. apply no_heap_list_b_sound. reflexivity.
 Qed.
 
 (* a list of lists leaks at both levels: [[“a”], [“b”, <truncated>]] : the inner frame leaks "b", the outer [“a”] *)
 Example nested_leak :
-  own_decode_top MSync [] PBinary (TyList (TyList TyString))
+  own_decode_top MSync [] [] PBinary (TyList (TyList TyString))
     [x0f; x00; x00; x00; x02;
      x0b; x00; x00; x00; x01; x00; x00; x00; x01; x61;
      x0b; x00; x00; x00; x02; x00; x00; x00; x01; x62; x00; x00; x00; x09]%byte
   = (Err EInvalidData, [GBytes [x62]%byte; GList [GBytes [x61]%byte]]).
 Proof. vm_compute. reflexivity. Qed.
 
+(* pilota.rust_wrapper_arc: the lowered schema represents `Arc<T>` as a reference to a typedef box `DTypedef T` whose index is
+   listed in [A] (transparent for decoding: typedefs are resolved; an allocation for ownership).  ArcEl { 1: required Arc<Pt> p },
+   Pt { 1: required i32 x }: without the marking ArcEl owns nothing and list<ArcEl> is in the no-leak class; with it the first
+   element of a list whose second element is cut off is never dropped (observed on the emitted code: 40 bytes stay live). *)
+Definition arc_schema : schema :=
+  [DStruct [mkField 1 Required TyI32 None] false false;
+   DStruct [mkField 1 Required (TyRef 2) None] false false;
+   DTypedef (TyRef 0)].
+Definition arc_input : list byte :=
+  [x0c; x00; x00; x00; x02;  x0c; x00; x01; x08; x00; x01; x00; x00; x00; x05; x00; x00;  x0c]%byte.
+Example arc_member_leak :
+  owns_heap [] arc_schema (TyRef 1) = false /\ owns_heap [2%nat] arc_schema (TyRef 1) = true /\
+  no_heap_list_b [2%nat] arc_schema (TyList (TyRef 1)) = false /\
+  (exists e x, own_decode_top MSync [2%nat] arc_schema PBinary (TyList (TyRef 1)) arc_input = (Err e, [x])) /\
+  snd (own_decode_top MSync [] arc_schema PBinary (TyList (TyRef 1)) arc_input) = [].
+Proof. vm_compute. repeat split; eauto. Qed.
+
 (* ================= the sync templates of keep_unknown_fields builds ================= *)
-Lemma own_decode_keep_S S p f t s : own_decode_keep S p (Datatypes.S f) t s =
+Lemma own_decode_keep_S A S p f t s : own_decode_keep A S p (Datatypes.S f) t s =
   match resolve S t with
   | TyBool => lift (let* (b, s) := r_bool p s in Ok (GBool b, s))
   | TyI8 => lift (let* (z, s) := r_i8 s in Ok (GI8 z, s))
@@ -664,35 +682,35 @@ Lemma own_decode_keep_S S p f t s : own_decode_keep S p (Datatypes.S f) t s =
             let* (_, s) := r_struct_end p s in Ok (GVoid, s))
   | TyList et =>
       let+ (h, s) := lift (r_coll_begin p s) in
-      let+ (l, s) := own_elems (own_decode_keep S p f) (owns_heap_keep S et) (Datatypes.S f) et (snd h) s [] in
+      let+ (l, s) := own_elems (own_decode_keep A S p f) (owns_heap_keep A S et) (Datatypes.S f) et (snd h) s [] in
       lift (Ok (GList l, s))
   | TySet et =>
       let+ (h, s) := lift (r_coll_begin p s) in
-      let+ (l, s) := own_elems (own_decode_keep S p f) false (Datatypes.S f) et (snd h) s [] in
+      let+ (l, s) := own_elems (own_decode_keep A S p f) false (Datatypes.S f) et (snd h) s [] in
       lift (Ok (GSet l, s))
   | TyMap kt vt =>
       let+ (h, s) := lift (r_map_begin p s) in
-      let+ (l, s) := own_pairs (own_decode_keep S p f) (Datatypes.S f) kt vt (snd h) s [] in
+      let+ (l, s) := own_pairs (own_decode_keep A S p f) (Datatypes.S f) kt vt (snd h) s [] in
       lift (Ok (GMap l, s))
   | TyRef n =>
       match lookup S n with
       | Some (DEnum _) => lift (let* (z, s) := r_i32 p s in Ok (GEnum z, s))
       | Some (DStruct fs true is_arg) =>
           let+ (_, s) := lift (r_struct_begin p s) in
-          let+ (r, s) := own_fields_keep S p f (own_decode_keep S p f) (Datatypes.S f) fs is_arg (map init_var fs)
+          let+ (r, s) := own_fields_keep S p f (own_decode_keep A S p f) (Datatypes.S f) fs is_arg (map init_var fs)
                                          (Z.of_nat (length fs)) [] s in
           let+ (_, s) := lift (r_struct_end p s) in
           let+ out := lift (finish_fields fs (fst r)) in
           lift (Ok (GStruct out (snd r), s))
       | Some (DStruct fs false _) =>
           let+ (_, s) := lift (r_struct_begin p s) in
-          let+ (vars, s) := own_fields MSync S p f (own_decode_keep S p f) (Datatypes.S f) fs (map init_var fs) s in
+          let+ (vars, s) := own_fields MSync S p f (own_decode_keep A S p f) (Datatypes.S f) fs (map init_var fs) s in
           let+ (_, s) := lift (r_struct_end p s) in
           let+ out := lift (finish_fields fs vars) in
           lift (Ok (GStruct out [], s))
       | Some (DUnion vs void_ok true) =>
           let+ (_, s) := lift (r_struct_begin p s) in
-          let+ (ret, s) := own_variants_keep S p f (own_decode_keep S p f) (Datatypes.S f) vs UNone s in
+          let+ (ret, s) := own_variants_keep S p f (own_decode_keep A S p f) (Datatypes.S f) vs UNone s in
           let+ (_, s) := lift (r_struct_end p s) in
           lift (match ret with
                 | UKnown id x => Ok (GUnion id x, s)
@@ -704,7 +722,7 @@ Lemma own_decode_keep_S S p f t s : own_decode_keep S p (Datatypes.S f) t s =
                 end)
       | Some (DUnion vs void_ok false) =>
           let+ (_, s) := lift (r_struct_begin p s) in
-          let+ (ret, s) := own_variants MSync S p f (own_decode_keep S p f) (Datatypes.S f) vs None s in
+          let+ (ret, s) := own_variants MSync S p f (own_decode_keep A S p f) (Datatypes.S f) vs None s in
           let+ (_, s) := lift (r_struct_end p s) in
           lift (match ret with
                 | Some (id, x) => Ok (GUnion id x, s)
@@ -830,7 +848,7 @@ Section ProjKeep.
 End ProjKeep.
 
 (* erasing the ghost from the keep-build instance gives GenKeep.gen_decode_keep *)
-Theorem own_proj_keep S p : forall f t s, fst (own_decode_keep S p f t s) = gen_decode_keep S p f t s.
+Theorem own_proj_keep A S p : forall f t s, fst (own_decode_keep A S p f t s) = gen_decode_keep S p f t s.
 Proof.
   induction f as [|f IH]; intros t s; [reflexivity|].
   rewrite own_decode_keep_S, gen_decode_keep_S.
@@ -858,10 +876,11 @@ Proof.
       apply fst_obind_ext; [reflexivity|]. intros [u2 s3]. reflexivity.
 Qed.
 
-Theorem own_proj_keep_top S p t l : fst (own_decode_keep_top S p t l) = gen_decode_keep_top S p t l.
+Theorem own_proj_keep_top A S p t l : fst (own_decode_keep_top A S p t l) = gen_decode_keep_top S p t l.
 Proof. unfold own_decode_keep_top, gen_decode_keep_top. cbn [fst]. rewrite own_proj_keep. reflexivity. Qed.
 
 Section ClosedKeep.
+  Variable A : list nat.
   Variable S : schema.
   Variable p : pk.
   Variable Q : forall A, own A -> Prop.
@@ -919,8 +938,8 @@ Section ClosedKeep.
 End ClosedKeep.
 
 (* keep builds: nothing leaks unless a list with an element type that needs Drop IN SUCH A BUILD is reachable *)
-Theorem own_keep_noleak S p t0 : no_heap_list_keep S t0 ->
-  forall f t s, reach S t0 t -> snd (own_decode_keep S p f t s) = [].
+Theorem own_keep_noleak A S p t0 : no_heap_list_keep A S t0 ->
+  forall f t s, reach S t0 t -> snd (own_decode_keep A S p f t s) = [].
 Proof.
   intros Hno.
   induction f as [|f IH]; intros t s Hr; [reflexivity|].
@@ -929,10 +948,10 @@ Proof.
   assert (Ql : forall A (r : res A), Q A (lift r)) by (intros; apply noleak_lift).
   assert (Qb : forall A B (r : own A) (g : A -> own B), Q A r -> (forall a, Q B (g a)) -> Q B (obind r g))
     by (intros; apply noleak_bind; auto).
-  assert (Hel : forall et, reach S t0 et -> forall m k s' acc, NOLEAK (own_elems (own_decode_keep S p f) false m et k s' acc)).
+  assert (Hel : forall et, reach S t0 et -> forall m k s' acc, NOLEAK (own_elems (own_decode_keep A S p f) false m et k s' acc)).
   { intros et He. induction m as [|m IHm]; intros k s' acc; cbn [own_elems]; destruct (k <=? 0); try reflexivity.
     unfold NOLEAK, obind_leak. specialize (IH et s' He).
-    destruct (fst (own_decode_keep S p f et s')) as [[x s2]| |]; cbn [snd fst]; rewrite IH; [|reflexivity..].
+    destruct (fst (own_decode_keep A S p f et s')) as [[x s2]| |]; cbn [snd fst]; rewrite IH; [|reflexivity..].
     apply IHm. }
   destruct (resolve S t) as [| | | | | | | | | |et|et|kt vt|n] eqn:Eres; try reflexivity.
   - apply noleak_bind; [reflexivity|]. intros [h s1]. rewrite (Hno et Hr).
@@ -941,57 +960,57 @@ Proof.
     apply noleak_bind; [|intros [l s2]; reflexivity]. apply Hel. eapply reach_set; eauto.
   - apply noleak_bind; [reflexivity|]. intros [h s1].
     apply noleak_bind; [|intros [l s2]; reflexivity].
-    apply (closed_pairs Q Ql Qb (own_decode_keep S p f) (reach S t0)).
+    apply (closed_pairs Q Ql Qb (own_decode_keep A S p f) (reach S t0)).
     + intros t' s' Ht'. apply IH, Ht'.
     + eapply reach_mapk; eauto.
     + eapply reach_mapv; eauto.
   - destruct (lookup S n) as [[fs [|] ia|vs vo [|]|ms|tt]|] eqn:Elk; try reflexivity.
     + apply noleak_bind; [reflexivity|]. intros [u s1].
       apply noleak_bind.
-      * apply (closed_fields_keep S p Q Ql Qb f (own_decode_keep S p f) (reach S t0)).
+      * apply (closed_fields_keep S p Q Ql Qb f (own_decode_keep A S p f) (reach S t0)).
         -- intros t' s' Ht'. apply IH, Ht'.
         -- intros fd Hin. eapply reach_field; eauto.
       * intros [r s2]. apply noleak_bind; [reflexivity|]. intros [u2 s3].
         apply noleak_bind; [reflexivity|]. intros out. reflexivity.
     + apply noleak_bind; [reflexivity|]. intros [u s1].
       apply noleak_bind.
-      * apply (closed_fields MSync S p Q Ql Qb f (own_decode_keep S p f) (reach S t0)).
+      * apply (closed_fields MSync S p Q Ql Qb f (own_decode_keep A S p f) (reach S t0)).
         -- intros t' s' Ht'. apply IH, Ht'.
         -- intros fd Hin. eapply reach_field; eauto.
       * intros [vars s2]. apply noleak_bind; [reflexivity|]. intros [u2 s3].
         apply noleak_bind; [reflexivity|]. intros out. reflexivity.
     + apply noleak_bind; [reflexivity|]. intros [u s1].
       apply noleak_bind.
-      * apply (closed_variants_keep S p Q Ql Qb f (own_decode_keep S p f) (reach S t0)).
+      * apply (closed_variants_keep S p Q Ql Qb f (own_decode_keep A S p f) (reach S t0)).
         -- intros t' s' Ht'. apply IH, Ht'.
         -- intros q Hin. eapply reach_variant; eauto.
       * intros [ret s2]. apply noleak_bind; [reflexivity|]. intros [u2 s3]. reflexivity.
     + apply noleak_bind; [reflexivity|]. intros [u s1].
       apply noleak_bind.
-      * apply (closed_variants MSync S p Q Ql Qb f (own_decode_keep S p f) (reach S t0)).
+      * apply (closed_variants MSync S p Q Ql Qb f (own_decode_keep A S p f) (reach S t0)).
         -- intros t' s' Ht'. apply IH, Ht'.
         -- intros q Hin. eapply reach_variant; eauto.
       * intros [ret s2]. apply noleak_bind; [reflexivity|]. intros [u2 s3]. reflexivity.
 Qed.
 
-Theorem no_leak_keep_partial S t : no_heap_list_keep S t ->
-  forall p f s, snd (own_decode_keep S p f t s) = [].
-Proof. intros Hn p f s. apply (own_keep_noleak S p t Hn). apply reach_refl. Qed.
+Theorem no_leak_keep_partial A S t : no_heap_list_keep A S t ->
+  forall p f s, snd (own_decode_keep A S p f t s) = [].
+Proof. intros Hn p f s. apply (own_keep_noleak A S p t Hn). apply reach_refl. Qed.
 
 (* the keep-build sync decoder leaks the same way: struct Names { 1: list<string> } compiled with retention *)
 Definition leak_schema_keep : schema := [DStruct [mkField 1 Optional (TyList TyString) None] true false].
 Example leak_witness_keep :
-  own_decode_keep_top leak_schema_keep PBinary (TyRef 0) leak_input = (Err EInvalidData, [GBytes [x61]%byte]).
+  own_decode_keep_top [] leak_schema_keep PBinary (TyRef 0) leak_input = (Err EInvalidData, [GBytes [x61]%byte]).
 Proof. vm_compute. reflexivity. Qed.
 
 (* a list of scalar-only structs leaks nothing in a plain build, but does in a keep build (every kept struct
    owns a LinkedBytes): list<struct P { 1: i32 }>, two elements, the second truncated *)
 Definition pt_schema (kp : bool) : schema := [DStruct [mkField 1 Optional TyI32 None] kp false].
 Definition pt_input : list byte := [x0c; x00; x00; x00; x02; x08; x00; x01; x00; x00; x00; x05; x00; x08; x00]%byte.
-Example pt_plain : own_decode_top MSync (pt_schema false) PBinary (TyList (TyRef 0)) pt_input = (Err EInvalidData, []).
+Example pt_plain : own_decode_top MSync [] (pt_schema false) PBinary (TyList (TyRef 0)) pt_input = (Err EInvalidData, []).
 Proof. vm_compute. reflexivity. Qed.
 Example pt_keep :
-  own_decode_keep_top (pt_schema true) PBinary (TyList (TyRef 0)) pt_input = (Err EInvalidData, [GStruct [(1, GI32 5)] []]).
+  own_decode_keep_top [] (pt_schema true) PBinary (TyList (TyRef 0)) pt_input = (Err EInvalidData, [GStruct [(1, GI32 5)] []]).
 Proof. vm_compute. reflexivity. Qed.
 
 (* ================= the message level ================= *)
@@ -1023,7 +1042,7 @@ Proof.
   rewrite (proj1 (negb_true_iff _) (H st (or_introl eq_refl))). cbn [app]. apply IH. intros x Hx. apply H. right. exact Hx.
 Qed.
 
-Lemma own_body_noleak md kb S p fuel b s : body_no_heap_list md kb S b -> snd (own_body md kb S p fuel b s) = [].
+Lemma own_body_noleak md kb A S p fuel b s : body_no_heap_list md kb A S b -> snd (own_body md kb A S p fuel b s) = [].
 Proof.
   destruct b as [t|]; cbn [own_body body_no_heap_list]; [|reflexivity].
   destruct md, kb; intros H.
@@ -1035,47 +1054,47 @@ Qed.
 
 (* whatever happens to envelope and body, once identifier, value / error, protocol and input have been dropped nothing
    that the identifier held is held by anything else *)
-Theorem message_ident_released md kb S p fuel b s : mo_retained (own_message md kb S p fuel b s) = [].
+Theorem message_ident_released md kb A S p fuel b s : mo_retained (own_message md kb A S p fuel b s) = [].
 Proof.
   unfold own_message. destruct (m_message_begin md p s) as [[id s1]| |]; [|reflexivity..].
-  destruct (fst (own_body md kb S p fuel b s1)) as [[v s2]| |]; cbn [mo_retained]; apply global_retained_nil.
+  destruct (fst (own_body md kb A S p fuel b s1)) as [[v s2]| |]; cbn [mo_retained]; apply global_retained_nil.
 Qed.
 
 (* C19 at the message level, outside the class of F-19a *)
-Theorem message_no_leak_partial md kb S p fuel b s : body_no_heap_list md kb S b ->
-  mo_leaked (own_message md kb S p fuel b s) = [] /\ mo_retained (own_message md kb S p fuel b s) = [].
+Theorem message_no_leak_partial md kb A S p fuel b s : body_no_heap_list md kb A S b ->
+  mo_leaked (own_message md kb A S p fuel b s) = [] /\ mo_retained (own_message md kb A S p fuel b s) = [].
 Proof.
   intros H. split; [|apply message_ident_released].
   unfold own_message. destruct (m_message_begin md p s) as [[id s1]| |]; [|reflexivity..].
-  pose proof (own_body_noleak md kb S p fuel b s1 H) as E.
-  destruct (fst (own_body md kb S p fuel b s1)) as [[v s2]| |]; cbn [mo_leaked]; exact E.
+  pose proof (own_body_noleak md kb A S p fuel b s1 H) as E.
+  destruct (fst (own_body md kb A S p fuel b s1)) as [[v s2]| |]; cbn [mo_leaked]; exact E.
 Qed.
 
 (* what the body leaks at the message level is what the body decoder leaks (F-19a unchanged by the envelope) *)
-Theorem message_leak_is_body_leak md kb S p fuel b s id s1 :
+Theorem message_leak_is_body_leak md kb A S p fuel b s id s1 :
   m_message_begin md p s = Ok (id, s1) ->
-  mo_leaked (own_message md kb S p fuel b s) = snd (own_body md kb S p fuel b s1) /\
-  mo_ident (own_message md kb S p fuel b s) = name_holds md (m_name id).
+  mo_leaked (own_message md kb A S p fuel b s) = snd (own_body md kb A S p fuel b s1) /\
+  mo_ident (own_message md kb A S p fuel b s) = name_holds md (m_name id).
 Proof.
   intros E. unfold own_message. rewrite E.
-  destruct (fst (own_body md kb S p fuel b s1)) as [[v s2]| |]; split; reflexivity.
+  destruct (fst (own_body md kb A S p fuel b s1)) as [[v s2]| |]; split; reflexivity.
 Qed.
 
 (* erasing the ghosts: the outcome is read_message_begin followed by the emitted decoder on the same protocol object *)
-Theorem message_erase_sync S p fuel t s :
-  mo_outcome (own_message MSync false S p fuel (BType t) s) =
+Theorem message_erase_sync A S p fuel t s :
+  mo_outcome (own_message MSync false A S p fuel (BType t) s) =
   (let* (id, s1) := r_message_begin p s in let* (v, s2) := gen_decode S p fuel t s1 in Ok (id, v, s2)).
 Proof.
   unfold own_message. cbn [m_message_begin own_body]. destruct (r_message_begin p s) as [[id s1]| |]; cbn [bind]; try reflexivity.
   rewrite own_proj_sync. destruct (gen_decode S p fuel t s1) as [[v s2]| |]; reflexivity.
 Qed.
-Theorem message_erase_async S kb p fuel t s :
-  mo_outcome (own_message MAsync kb S p fuel (BType t) s) =
+Theorem message_erase_async A S kb p fuel t s :
+  mo_outcome (own_message MAsync kb A S p fuel (BType t) s) =
   (let* (id, s1) := a_message_begin p s in let* (v, s2) := gen_decode_async S p fuel t s1 in Ok (id, v, s2)).
 Proof.
   unfold own_message. cbn [m_message_begin own_body]. destruct (a_message_begin p s) as [[id s1]| |]; cbn [bind]; try reflexivity.
-  replace (match kb with true => own_decode MAsync S p fuel t s1 | false => own_decode MAsync S p fuel t s1 end)
-    with (own_decode MAsync S p fuel t s1) by (destruct kb; reflexivity).
+  replace (match kb with true => own_decode MAsync A S p fuel t s1 | false => own_decode MAsync A S p fuel t s1 end)
+    with (own_decode MAsync A S p fuel t s1) by (destruct kb; reflexivity).
   rewrite own_proj_async. destruct (gen_decode_async S p fuel t s1) as [[v s2]| |]; reflexivity.
 Qed.
 
@@ -1087,13 +1106,13 @@ Definition msg_input : list byte :=
   ([x80; x01; x00; x01; x00; x00; x00; x1e] ++ repeat x6d 30 ++ [x00; x00; x00; x07] ++
    [x0f; x00; x01; x08; x00; x00; x00; x02; x00; x00; x00; x05; x00])%byte.
 Example msg_rejected :
-  let o := own_message_top MSync false msg_schema PBinary (BType (TyRef 0)) msg_input in
+  let o := own_message_top MSync false [] msg_schema PBinary (BType (TyRef 0)) msg_input in
   mo_stage o = 1%nat /\ mo_outcome o = Err EInvalidData /\ mo_ident o = [HInputRef] /\ mo_leaked o = [] /\ mo_retained o = [].
 Proof. vm_compute. auto. Qed.
-Example msg_class : body_no_heap_list MSync false msg_schema (BType (TyRef 0)).
+Example msg_class : body_no_heap_list MSync false [] msg_schema (BType (TyRef 0)).
 Proof. cbn. apply no_heap_list_b_sound. vm_compute. reflexivity. Qed.
 (* the same bytes through the async readers: the name is an owned heap string *)
 Example msg_rejected_async :
-  let o := own_message_top MAsync false msg_schema PBinary (BType (TyRef 0)) msg_input in
+  let o := own_message_top MAsync false [] msg_schema PBinary (BType (TyRef 0)) msg_input in
   mo_stage o = 1%nat /\ mo_ident o = [HHeap] /\ mo_leaked o = [] /\ mo_retained o = [].
 Proof. vm_compute. auto. Qed.
